@@ -276,6 +276,11 @@ def build_sections(surface):
     surface_sections = []
     num_sections = surface["num_sections"]
 
+    # Per-section lists must have one entry for each section
+    for k in sorted(set(surface).intersection(target_keys)):
+        if type(surface[k]) is list and len(surface[k]) != num_sections:
+            raise ValueError("'{}' needs to be provided for each section".format(k))
+
     for i in range(num_sections):
         section = {}
         for k in set(surface).intersection(target_keys):
